@@ -176,3 +176,211 @@ package sql
 //@   ensures fresh-context: result1 == nil ==> c.Conn.txCtx != nil && c.Conn.txCtx.BranchID == 0 && c.Conn.txCtx.RoundImages != nil && len(c.Conn.txCtx.RoundImages.before) == 0 && len(c.Conn.txCtx.RoundImages.after) == 0 && !c.Conn.autoCommit
 //@   ensures at-tx: result1 == nil ==> isT(result0, *ATTx) && result0.(*ATTx) != nil && result0.(*ATTx).tx != nil && result0.(*ATTx).tx.tranCtx == c.Conn.txCtx && result0.(*ATTx).tx.conn == c.Conn && result0.(*ATTx).tx.target != nil && ghost.dtx == 1
 //@   ensures begin-failure: result1 != nil ==> ghost.dtx == old(ghost.dtx)
+
+// ---------------------------------------------------------------------------------------------
+// C17: XA branches. Environment (assumed): the XA resource of the target connection as a state
+// machine (ghost.xa_state: 0 none, 1 active, 2 idle, 3 prepared, 4 committed, 5 rolled back); a
+// command that fails leaves the state as it was; ghost.xa_illegal records a command issued in a state
+// in which the XA protocol does not allow it (rollback is allowed from active, idle and prepared: the
+// code always tries END first), ghost.xa_mismatch one issued under another identifier than XA START.
+//@ ghost var xa_state int
+//@ ghost var xa_illegal bool
+//@ ghost var xa_mismatch bool
+//@ ghost var xa_id string
+//@ iface (xa.XAResource).Start
+//@   modifies ghost.xa_state, ghost.xa_illegal, ghost.xa_id
+//@   ensures ghost.xa_illegal == (old(ghost.xa_illegal) || old(ghost.xa_state) != 0)
+//@   ensures (result == nil ==> ghost.xa_state == 1 && ghost.xa_id == xid) && (result != nil ==> ghost.xa_state == old(ghost.xa_state) && ghost.xa_id == old(ghost.xa_id))
+//@ iface (xa.XAResource).End
+//@   modifies ghost.xa_state, ghost.xa_illegal, ghost.xa_mismatch
+//@   ensures ghost.xa_illegal == (old(ghost.xa_illegal) || old(ghost.xa_state) != 1) && ghost.xa_mismatch == (old(ghost.xa_mismatch) || xid != ghost.xa_id)
+//@   ensures (result == nil ==> ghost.xa_state == 2) && (result != nil ==> ghost.xa_state == old(ghost.xa_state))
+//@ iface (xa.XAResource).XAPrepare
+//@   modifies ghost.xa_state, ghost.xa_illegal, ghost.xa_mismatch
+//@   ensures ghost.xa_illegal == (old(ghost.xa_illegal) || old(ghost.xa_state) != 2) && ghost.xa_mismatch == (old(ghost.xa_mismatch) || xid != ghost.xa_id)
+//@   ensures (result == nil ==> ghost.xa_state == 3) && (result != nil ==> ghost.xa_state == old(ghost.xa_state))
+//@ iface (xa.XAResource).Commit
+//@   modifies ghost.xa_state, ghost.xa_illegal, ghost.xa_mismatch
+//@   ensures ghost.xa_illegal == (old(ghost.xa_illegal) || old(ghost.xa_state) != 3) && ghost.xa_mismatch == (old(ghost.xa_mismatch) || xid != ghost.xa_id)
+//@   ensures (result == nil ==> ghost.xa_state == 4) && (result != nil ==> ghost.xa_state == old(ghost.xa_state))
+//@ iface (xa.XAResource).Rollback
+//@   modifies ghost.xa_state, ghost.xa_illegal, ghost.xa_mismatch
+//@   ensures ghost.xa_illegal == (old(ghost.xa_illegal) || (old(ghost.xa_state) != 1 && old(ghost.xa_state) != 2 && old(ghost.xa_state) != 3)) && ghost.xa_mismatch == (old(ghost.xa_mismatch) || xid != ghost.xa_id)
+//@   ensures (result == nil ==> ghost.xa_state == 5) && (result != nil ==> ghost.xa_state == old(ghost.xa_state))
+//@ ext seata.apache.org/seata-go/pkg/datasource/sql/xa.CreateXAResource
+//@   ensures result1 == nil ==> result0 != nil
+//@ ext strconv.FormatUint
+//@   ensures result == ufs("fmtuint", i)
+
+//@ func XaIdBuild
+//@   prop C17
+//@   ensures carries-both: result != nil && result.xid == xid && result.branchId == branchId
+//@ func (*XABranchXid).String
+//@   prop C17
+//@   requires x != nil
+//@   ensures function-of-xid-and-branch: result == x.xid + "-" + ufs("fmtuint", x.branchId)
+//@   nopanic
+
+// The base Tx is shared by AT (target = the driver's transaction) and XA (no target: XA START/END
+// replace BEGIN/COMMIT); its Rollback must be callable in both.
+//@ func (*Tx).Rollback
+//@   prop C17
+//@   requires tx != nil && forall(i, 0, len(txHooks), txHooks[i] != nil)
+//@   modifies ghost.dtx
+//@   ensures xa-no-local-tx: tx.target == nil ==> ghost.dtx == old(ghost.dtx)
+//@   loop 1 invariant index: rangeindex >= -1
+//@   nopanic
+
+// helpers of the XA connection: bookkeeping only (hold/release in the keeper, status cache lookups,
+// timestamps); their contracts say what they may touch, not more.
+//@ func branchStatus
+//@   trusted
+//@   ensures true
+//@ func (*XAConn).ShouldBeHeld
+//@   prop C17
+//@   requires c != nil && c.Conn != nil && c.Conn.res != nil
+//@   ensures true
+//@ func (*XAConn).releaseIfNecessary
+//@   prop C17
+//@   requires c != nil && c.Conn != nil && c.Conn.res != nil && c.xaBranchXid != nil
+//@   modifies c.isConnKept, syncmap(c.Conn.res, "keeper")
+//@   ensures true
+//@ func (*XAConn).keepIfNecessary
+//@   prop C17
+//@   requires c != nil && c.Conn != nil && c.Conn.res != nil && c.xaBranchXid != nil
+//@   modifies c.isConnKept, syncmap(c.Conn.res, "keeper")
+//@   ensures true
+//@ func (*XAConn).termination
+//@   prop C17
+//@   requires c != nil && c.Conn != nil && c.Conn.res != nil && c.Conn.txCtx != nil && c.xaBranchXid != nil
+//@   modifies c.isConnKept, syncmap(c.Conn.res, "keeper")
+//@   ensures true
+//@ func (*XAConn).cleanXABranchContext
+//@   prop C17
+//@   requires c != nil
+//@   modifies c.xaActive, c.xaBranchXid, c.branchRegisterTime, c.prepareTime
+//@   ensures deactivated: !c.xaActive && (c.isConnKept ==> c.xaBranchXid == old(c.xaBranchXid))
+
+//@ func (*XAConn).start
+//@   prop C17
+//@   requires c != nil && c.Conn != nil && c.Conn.txCtx != nil && c.Conn.res != nil && c.Conn.targetConn != nil && c.xaBranchXid != nil
+//@   requires ghost.xa_state == 0 && !ghost.xa_illegal && !ghost.xa_mismatch
+//@   let id := c.xaBranchXid.xid + "-" + ufs("fmtuint", c.xaBranchXid.branchId)
+//@   modifies c.xaResource, c.isConnKept, syncmap(c.Conn.res, "keeper"), ghost.xa_state, ghost.xa_illegal, ghost.xa_mismatch, ghost.xa_id
+//@   ensures legal: !ghost.xa_illegal && !ghost.xa_mismatch
+//@   ensures started: result == nil ==> ghost.xa_state == 1 && ghost.xa_id == id && c.xaResource != nil
+//@   ensures failed-start-leaves-nothing-active: result != nil && ghost.xa_state == 1 ==> called("Rollback#1")
+//@   ensures never-beyond-active: ghost.xa_state != 3 && ghost.xa_state != 4
+
+//@ func (*XAConn).Commit
+//@   prop C17
+//@   requires c != nil && c.Conn != nil && c.Conn.txCtx != nil && c.Conn.res != nil
+//@   let id := c.xaBranchXid.xid + "-" + ufs("fmtuint", c.xaBranchXid.branchId)
+//@   let live := !c.Conn.autoCommit && c.xaActive && c.xaBranchXid != nil
+//@   requires live ==> c.xaResource != nil && ghost.xa_state == 1 && ghost.xa_id == id
+//@   requires !ghost.xa_illegal && !ghost.xa_mismatch
+//@   modifies c.xaActive, c.xaBranchXid, c.branchRegisterTime, c.prepareTime, c.isConnKept, syncmap(c.Conn.res, "keeper"), ghost.xa_state, ghost.xa_illegal, ghost.xa_mismatch
+//@   ensures legal: !ghost.xa_illegal && !ghost.xa_mismatch
+//@   ensures end-then-prepare: live && result == nil ==> ghost.xa_state == 3
+//@   ensures failure-is-an-error: live && ghost.xa_state != 3 ==> result != nil
+//@   ensures failure-rolls-back: live && ghost.xa_state != 3 ==> called("Rollback#1")
+//@   let inactive := !c.Conn.autoCommit && !(c.xaActive && c.xaBranchXid != nil)
+//@   ensures no-commit-in-phase-one: live ==> ghost.xa_state != 4
+//@   ensures inactive-session: inactive ==> result != nil && ghost.xa_state == old(ghost.xa_state)
+//@   let auto := c.Conn.autoCommit
+//@   let id0 := c.xaBranchXid
+//@   ensures autocommit-noop: auto ==> result == nil && ghost.xa_state == old(ghost.xa_state)
+//@   ensures deactivated-on-failure: live && result != nil ==> !c.xaActive
+//@   ensures success-keeps-branch: live && result == nil ==> c.xaActive && c.xaBranchXid == id0
+
+//@ func (*XAConn).Rollback
+//@   prop C17
+//@   requires c != nil && c.Conn != nil && c.Conn.txCtx != nil && c.Conn.res != nil
+//@   let id := c.xaBranchXid.xid + "-" + ufs("fmtuint", c.xaBranchXid.branchId)
+//@   let live := !c.Conn.autoCommit && c.xaActive && c.xaBranchXid != nil && !c.rollBacked
+//@   requires live ==> c.xaResource != nil && c.tx != nil && ghost.xa_state == 1 && ghost.xa_id == id
+//@   requires !ghost.xa_illegal && !ghost.xa_mismatch
+//@   modifies c.xaActive, c.xaBranchXid, c.branchRegisterTime, c.prepareTime, c.isConnKept, syncmap(c.Conn.res, "keeper"), ghost.xa_state, ghost.xa_illegal, ghost.xa_mismatch, ghost.dtx
+//@   ensures legal: !ghost.xa_illegal && !ghost.xa_mismatch
+//@   ensures end-then-rollback: live && result == nil ==> ghost.xa_state == 5
+//@   ensures never-commits: live ==> ghost.xa_state != 3 && ghost.xa_state != 4
+//@   let auto := c.Conn.autoCommit
+//@   let dead := !c.Conn.autoCommit && !(c.xaActive && c.xaBranchXid != nil)
+//@   ensures not-live-noop: auto || dead ==> ghost.xa_state == old(ghost.xa_state)
+
+//@ func (*XAConn).BeginTx
+//@   prop C17
+//@   requires c != nil && c.Conn != nil && c.Conn.res != nil && c.Conn.targetConn != nil && c.Conn.txCtx != nil && ctx != nil
+//@   let cv := ctxvalue(ctx, tm.seataContextVariable)
+//@   requires cv != nil ==> isT(cv, *tm.ContextVariable) && cv.(*tm.ContextVariable) != nil
+//@   let global := cv != nil && cv.(*tm.ContextVariable).Xid != ""
+//@   requires ghost.xa_state == 0 && !ghost.xa_illegal && !ghost.xa_mismatch && ghost.registers == 0
+//@   modifies c.Conn.autoCommit, c.Conn.txCtx, c.tx, c.branchRegisterTime, c.prepareTime, c.xaBranchXid, c.isConnKept, c.xaResource, c.xaActive, syncmap(c.Conn.res, "keeper"), ghost.xa_state, ghost.xa_illegal, ghost.xa_mismatch, ghost.xa_id, ghost.registers, ghost.reg_ok, ghost.dtx
+//@   ensures legal: !ghost.xa_illegal && !ghost.xa_mismatch
+//@   ensures registered-before-start: global && ghost.xa_state != 0 ==> ghost.registers == 1 && ghost.reg_ok
+//@   ensures refused-registration-starts-nothing: global && ghost.registers == 1 && !ghost.reg_ok ==> result1 != nil && ghost.xa_state == 0 && !called("Start#1")
+//@   ensures start-failure-surfaces: global && result1 == nil ==> ghost.xa_state == 1 && c.xaActive
+//@   ensures active-branch: global && result1 == nil ==> result0 != nil && c.xaResource != nil && c.tx != nil && c.xaBranchXid != nil && !c.Conn.autoCommit && c.Conn.txCtx != nil && ghost.xa_id == c.xaBranchXid.xid + "-" + ufs("fmtuint", c.xaBranchXid.branchId) && ghost.registers == 1 && ghost.reg_ok
+//@   let wasActive := c.xaActive
+//@   ensures failure-not-active: global && result1 != nil && !wasActive ==> !c.xaActive
+//@   at call start#1: assert id-from-xid-and-branch: c.xaBranchXid != nil && c.xaBranchXid.xid == cv.(*tm.ContextVariable).Xid && c.xaBranchXid.branchId == c.Conn.txCtx.BranchID && c.Conn.txCtx.BranchID != 0 && ghost.registers == 1 && ghost.reg_ok
+//@   ensures local-untouched: !global ==> ghost.xa_state == 0 && ghost.registers == 0
+//@   ensures never-beyond-active: ghost.xa_state != 3 && ghost.xa_state != 4
+
+//@ func (*XAConn).createNewTxOnExecIfNeed
+//@   prop C17
+//@   requires c != nil && c.Conn != nil && c.Conn.txCtx != nil && c.Conn.res != nil && c.Conn.targetConn != nil && ctx != nil
+//@   let cv := ctxvalue(ctx, tm.seataContextVariable)
+//@   requires cv != nil ==> isT(cv, *tm.ContextVariable) && cv.(*tm.ContextVariable) != nil
+//@   let id := c.xaBranchXid.xid + "-" + ufs("fmtuint", c.xaBranchXid.branchId)
+//@   let explicit := !c.Conn.autoCommit && c.xaActive && c.xaBranchXid != nil && !c.rollBacked
+//@   requires c.Conn.autoCommit ==> ghost.xa_state == 0 && !c.xaActive
+//@   requires explicit ==> c.xaResource != nil && c.tx != nil && ghost.xa_state == 1 && ghost.xa_id == id
+//@   requires !ghost.xa_illegal && !ghost.xa_mismatch && ghost.registers == 0 && ghost.f_calls == 0 && !c.rollBacked
+//@   modifies heap.all, ghost.all
+//@   ensures legal: !ghost.xa_illegal && !ghost.xa_mismatch
+//@   ensures statement-runs-at-most-once: ghost.f_calls <= 1
+//@   ensures failed-statement-surfaces: ghost.f_calls == 1 && !ghost.f_ok ==> result1 != nil
+//@   ensures failed-statement-never-prepared: ghost.f_calls == 1 && !ghost.f_ok && (explicit || ghost.registers == 1) ==> ghost.xa_state != 3 && ghost.xa_state != 4
+//@   let auto := c.Conn.autoCommit
+//@   ensures success-means-prepared: auto && ghost.registers == 1 && ghost.reg_ok && result1 == nil ==> ghost.xa_state == 3 && ghost.f_ok
+//@   ensures nothing-committed-in-phase-one: old(ghost.xa_state) != 4 ==> ghost.xa_state != 4
+//@   ensures_on_panic false
+
+// Phase two of an XA branch. finishBranch (registry and keeper lookup, or a new connection on a
+// process that never saw phase one) is trusted here: it yields a usable XA connection or an error.
+//@ func (*XAResourceManager).finishBranch
+//@   trusted
+//@   ensures result1 == nil ==> result0 != nil && result0.xaResource != nil && result0.Conn != nil && result0.Conn.res != nil && result0.xaBranchXid != nil
+//@ func setBranchStatus
+//@   trusted
+//@   ensures true
+
+//@ func (*XAResourceManager).BranchCommit
+//@   prop C17
+//@   requires xaManager != nil
+//@   let id := branchResource.Xid + "-" + ufs("fmtuint", branchResource.BranchId % pow2(64))
+//@   modifies heap.all, ghost.all
+//@   ensures committed-iff-xa-commit-succeeded: (result0 == branch.BranchStatusPhasetwoCommitted) == (called("Commit#1") && callres("Commit#1", 0) == nil)
+//@   ensures failure-is-reported: result0 != branch.BranchStatusPhasetwoCommitted ==> result1 != nil
+//@   ensures no-rollback: !called("Rollback#1")
+//@   ensures at-most-once: !called("Commit#2")
+//@   at call Commit#1: assert same-identifier-as-phase-one: arg_xid == id && !arg_onePhase
+
+//@ func (*XAResourceManager).BranchRollback
+//@   prop C17
+//@   requires xaManager != nil
+//@   let id := branchResource.Xid + "-" + ufs("fmtuint", branchResource.BranchId % pow2(64))
+//@   modifies heap.all, ghost.all
+//@   ensures rollbacked-iff-xa-rollback-succeeded: (result0 == branch.BranchStatusPhasetwoRollbacked) == (called("Rollback#1") && callres("Rollback#1", 0) == nil)
+//@   ensures failure-is-reported: result0 != branch.BranchStatusPhasetwoRollbacked ==> result1 != nil
+//@   ensures no-commit: !called("Commit#1")
+//@   ensures at-most-once: !called("Rollback#2")
+//@   at call Rollback#1: assert same-identifier-as-phase-one: arg_xid == id
+
+// An explicit database/sql transaction in XA mode: the driver-level Commit of XATx.
+//@ func (*XATx).Commit
+//@   prop C17
+//@   requires tx != nil && tx.tx != nil
+//@   modifies heap.all, ghost.all
+//@   ensures explicit-commit-prepares-the-branch: result == nil && ghost.xa_state == 1 ==> false
